@@ -13,6 +13,7 @@ package main
 //	types
 //	v <scripts> <TypeName> <seed> <depth> <nilish>
 //	q <scripts> <json-quoted cypher text>
+//	qd <scripts> <json-quoted cypher text>     like q, then every expression list is drained through its own Remove
 //
 // <scripts> = comma separated <mode>:<k>:<act>; mode st|se, k = 1-based index of the visitor callback
 // (Enter/Visit/Exit counted together) in which the action fires (0 = never), act n|c|d|e.
@@ -189,6 +190,7 @@ func c11Addressable(v reflect.Value) reflect.Value {
 type c11Render struct {
 	b      strings.Builder
 	track  bool
+	caps   bool // mark empty slices that own spare capacity: (l "<%T>" +cap) — only for the model's input, never for comparisons
 	spans  []c11Span
 	onPath map[uintptr]bool
 }
@@ -207,6 +209,14 @@ func c11RenderOfValue(v reflect.Value, track bool) *c11Render {
 }
 
 func c11RenderString(x any) string { return c11RenderOf(x, false).b.String() }
+
+// c11RenderForModel is the rendering sent to the Lean model: like c11RenderString, plus the `+cap` marker on
+// empty-but-allocated slices (len 0, cap > 0), whose backing array is an identity the copy must not share.
+func c11RenderForModel(x any) string {
+	r := &c11Render{caps: true, onPath: map[uintptr]bool{}}
+	r.value(reflect.ValueOf(x), false)
+	return r.b.String()
+}
 
 func (r *c11Render) scalar(typ, text string) {
 	r.b.WriteString(`(s `)
@@ -300,6 +310,9 @@ func (r *c11Render) value(v reflect.Value, inIface bool) {
 			return
 		}
 		r.b.WriteString("(l " + jsonQuote(t.String()))
+		if r.caps && v.Kind() == reflect.Slice && v.Len() == 0 && v.Cap() > 0 {
+			r.b.WriteString(" +cap")
+		}
 		for i := 0; i < v.Len(); i++ {
 			r.b.WriteString(" ")
 			r.value(v.Index(i), false)
@@ -522,7 +535,9 @@ func (s *c11Shared) walk(a, b reflect.Value, label string) {
 			s.walk(fa[i].v, fb[i].v, t.String()+"."+fa[i].name)
 		}
 	case reflect.Slice:
-		if a.Len() > 0 && b.Len() > 0 && a.Pointer() == b.Pointer() {
+		// same backing array: compared for EVERY slice that owns capacity, also when it is empty (len 0, cap > 0):
+		// an append on either side then writes into the other's array
+		if !a.IsNil() && !b.IsNil() && a.Cap() > 0 && b.Cap() > 0 && a.Pointer() == b.Pointer() {
 			s.labels[label] = true
 			return
 		}
@@ -577,6 +592,31 @@ func c11MutateAll(x any, phase string) (detached []reflect.Value) {
 	return m.detached
 }
 
+// appended is the element a slice is grown by. It differs between the two phases (and from the zero value in
+// phase a): when original and copy share a backing array with spare capacity, the second append overwrites the
+// first one's element, which only shows if the two elements render differently.
+func (m *c11Mutator) appended(et reflect.Type) reflect.Value {
+	out := reflect.New(et).Elem()
+	switch et.Kind() {
+	case reflect.String:
+		out.SetString("~mut-" + m.phase)
+	case reflect.Pointer:
+		if m.phase == "a" && et.Elem().Kind() == reflect.Struct {
+			out.Set(reflect.New(et.Elem())) // phase a: pointer to a zero struct; phase b: nil
+		}
+	case reflect.Interface:
+		switch {
+		case c11IfaceClass(et) == c11IfNode:
+			out.Set(reflect.ValueOf(&cypher.Variable{Symbol: "~mut-" + m.phase}))
+		case et == c11ErrorType:
+			out.Set(reflect.ValueOf(errors.New("~mut-" + m.phase)))
+		case et == reflect.TypeOf((*graph.Kind)(nil)).Elem():
+			out.Set(reflect.ValueOf(graph.StringKind("~mut-" + m.phase)))
+		}
+	}
+	return out
+}
+
 func (m *c11Mutator) value(v reflect.Value) {
 	if !v.IsValid() {
 		return
@@ -628,7 +668,7 @@ func (m *c11Mutator) value(v reflect.Value) {
 			v.Index(0).Set(reflect.Zero(t.Elem()))
 		}
 		if v.CanSet() {
-			v.Set(reflect.Append(v, reflect.Zero(t.Elem())))
+			v.Set(reflect.Append(v, m.appended(t.Elem())))
 		}
 	case reflect.Map:
 		if v.IsNil() || m.seen[v.Pointer()] {
@@ -841,6 +881,7 @@ func (g *c11Generator) node(t reflect.Type, depth int) reflect.Value {
 	case t.Kind() == reflect.Pointer && t.Elem().Kind() == reflect.Struct:
 		p := reflect.New(t.Elem())
 		g.fillStruct(p.Elem(), depth)
+		g.addThenRemove(p)
 		// 0 errors with prob 1/2, else 1..4 (3 errors leave len 3 cap 4: spare capacity)
 		if f, ok := p.Interface().(interface{ AddError(error) }); ok && g.rng.Chance(1, 2) {
 			n := 1 + g.rng.Intn(4)
@@ -858,6 +899,24 @@ func (g *c11Generator) node(t reflect.Type, depth int) reflect.Value {
 		g.fill(v, depth)
 		return v
 	}
+}
+
+// addThenRemove drains a list the way the model's own API does: when the node has Add/Remove/Len methods (the
+// embedders of expressionList: Where, Conjunction, Disjunction, ExclusiveDisjunction) and its list is empty, one time
+// out of two an expression is added and removed again, which leaves an empty list that still owns its backing array
+// (len 0, cap 1).
+func (g *c11Generator) addThenRemove(p reflect.Value) {
+	l, ok := p.Interface().(interface {
+		Add(cypher.Expression)
+		Remove(cypher.Expression) bool
+		Len() int
+	})
+	if !ok || l.Len() != 0 || !g.rng.Chance(1, 2) {
+		return
+	}
+	x := &cypher.Variable{Symbol: "drained"}
+	l.Add(x)
+	l.Remove(x)
 }
 
 func (g *c11Generator) fillStruct(sv reflect.Value, depth int) {
@@ -976,7 +1035,7 @@ func (g *c11Generator) fill(v reflect.Value, depth int) {
 			switch g.rng.Intn(4) {
 			case 0:
 			case 1:
-				v.Set(reflect.MakeSlice(t, 0, 0))
+				v.Set(reflect.MakeSlice(t, 0, g.rng.Intn(3))) // empty; two times out of three with spare capacity
 			default:
 				n := 1 + g.rng.Intn(2)
 				s := reflect.MakeSlice(t, n, n)
@@ -993,7 +1052,7 @@ func (g *c11Generator) fill(v reflect.Value, depth int) {
 			switch c {
 			case 0:
 			case 1:
-				v.Set(reflect.MakeSlice(t, 0, 0))
+				v.Set(reflect.MakeSlice(t, 0, g.rng.Intn(3))) // empty; two times out of three with spare capacity
 			default:
 				n := 1 + g.rng.Intn(3)
 				s := reflect.MakeSlice(t, n, n)
@@ -1108,6 +1167,7 @@ func (c11Suite) Gen(rng *Rng, tier string, w *bufio.Writer, stats *Stats) {
 			stats.Inc("values")
 		}
 	}
+	nq := 0
 	for _, c := range LoadCypherCorpus() {
 		scripts := "st:0:n,se:0:n"
 		if model, err := frontend.ParseCypher(frontend.NewContext(), c.Query); err == nil && model != nil {
@@ -1117,7 +1177,76 @@ func (c11Suite) Gen(rng *Rng, tier string, w *bufio.Writer, stats *Stats) {
 		}
 		emit("q:"+c.Source, fmt.Sprintf("q %s %s", scripts, jsonQuote(c.Query)))
 		stats.Inc("queries")
+		nq++
+		if nq%3 == 0 || thorough {
+			// the same query with every expression list drained through the model's own Remove
+			dscripts := "st:0:n,se:0:n"
+			if model, err := frontend.ParseCypher(frontend.NewContext(), c.Query); err == nil && model != nil {
+				if c11Drain(model) == 0 {
+					continue
+				}
+				dscripts = c11PickScripts(rng, model, extra, thorough, stats)
+			} else {
+				continue
+			}
+			emit("qd:"+c.Source, fmt.Sprintf("qd %s %s", dscripts, jsonQuote(c.Query)))
+			stats.Inc("queries_drained")
+		}
 	}
+}
+
+// c11Drain empties every list of the model that offers Len/Get/Remove (the expressionList embedders) through that
+// API, as a rewriter hoisting predicates would: the lists end up empty but still own their backing arrays.
+func c11Drain(root any) (drained int) {
+	seen := map[uintptr]bool{}
+	var walkv func(v reflect.Value)
+	walkv = func(v reflect.Value) {
+		if !v.IsValid() {
+			return
+		}
+		switch v.Kind() {
+		case reflect.Interface:
+			if !v.IsNil() && c11IfaceClass(v.Type()) == c11IfNode {
+				walkv(v.Elem())
+			}
+		case reflect.Pointer:
+			if v.IsNil() || seen[v.Pointer()] {
+				return
+			}
+			seen[v.Pointer()] = true
+			if v.Type().Elem().Kind() == reflect.Struct {
+				for _, f := range c11Fields(v.Elem(), true, nil) {
+					walkv(f.v)
+				}
+				if l, ok := v.Interface().(interface {
+					Len() int
+					Get(int) cypher.Expression
+					Remove(cypher.Expression) bool
+				}); ok && l.Len() > 0 {
+					func() {
+						defer func() { _ = recover() }() // Remove compares with ==: uncomparable dynamic types panic
+						for l.Len() > 0 && l.Remove(l.Get(0)) {
+						}
+					}()
+					if l.Len() == 0 {
+						drained++
+					}
+				}
+				return
+			}
+			walkv(v.Elem())
+		case reflect.Slice:
+			for i := 0; i < v.Len(); i++ {
+				walkv(v.Index(i))
+			}
+		case reflect.Map:
+			for _, k := range c11SortedKeys(v) {
+				walkv(v.MapIndex(k))
+			}
+		}
+	}
+	walkv(reflect.ValueOf(root))
+	return drained
 }
 
 // ---------------------------------------------------------------------------------------------------
@@ -1149,9 +1278,9 @@ func (r *c11Runner) Step(t []string, raw string) string {
 		nilish := t[5] == "1"
 		return r.answer(c11BuildValue(rt, seed, depth, nilish), scripts, nilish)
 
-	case len(t) >= 3 && t[0] == "q":
+	case len(t) >= 3 && (t[0] == "q" || t[0] == "qd"):
 		scripts, ok := c11ParseScripts(t[1])
-		rest := strings.TrimSpace(strings.TrimPrefix(strings.TrimSpace(raw), "q"))
+		rest := strings.TrimSpace(strings.TrimPrefix(strings.TrimSpace(raw), t[0]))
 		rest = strings.TrimSpace(strings.TrimPrefix(rest, t[1]))
 		text, okq := jsonUnquote(rest)
 		if !ok || !okq {
@@ -1162,6 +1291,9 @@ func (r *c11Runner) Step(t []string, raw string) string {
 			r.stats.Inc("parse.error")
 			return "parse-error"
 		}
+		if t[0] == "qd" {
+			r.stats.Add("values.drained_lists", int64(c11Drain(model)))
+		}
 		return r.answer(model, scripts, false)
 	}
 	return "bad-op"
@@ -1171,7 +1303,7 @@ func (r *c11Runner) Step(t []string, raw string) string {
 func (r *c11Runner) answer(root any, scripts []c11Script, nilish bool) string {
 	st := r.stats
 	st.Inc("type." + fmt.Sprintf("%T", root))
-	sexp := c11RenderString(root)
+	sexp := c11RenderForModel(root)
 	scan := c11ScanOf(root)
 	var b strings.Builder
 
